@@ -429,7 +429,7 @@ class Explorer(object):
             c = self.port.module_consts(self.modname).get(e.id, NOT_HANDLED) if hasattr(self.port, 'module_consts') else NOT_HANDLED
             if c is not NOT_HANDLED:
                 return c
-            if e.id in ('len', 'iter', 'str', 'int', 'bool', 'list', 'tuple', 'isinstance', 'range', 'enumerate', 'min', 'max', 'any', 'all', 'type', 'set', 'Set', 'sorted', 'sum', 'Map', 'dict', 'Array', '__regex__', 'reversed', 'Boolean', 'map', 'filter', 'zip', '__keys__', 'typeof', 'String', 'Number', 'next'):
+            if e.id in ('len', 'iter', 'str', 'int', 'bool', 'list', 'tuple', 'isinstance', 'range', 'enumerate', 'min', 'max', 'any', 'all', 'type', 'set', 'Set', 'sorted', 'sum', 'Map', 'dict', 'Array', '__regex__', 'reversed', 'Boolean', 'map', 'filter', 'zip', '__keys__', 'typeof', 'String', 'Number', 'next', 'RegExp'):
                 return ('builtin', e.id)
             if e.id in getattr(self.port, 'modules', {}) or e.id in ('re', 'os', 'sys', 'math', 'ast', 'heapq', 'JSON', 'Math', 'Object', 'Buffer', 'csv_utils', 'rbql_engine', 'rbql'):
                 return ('global', e.id)
@@ -896,6 +896,10 @@ class Explorer(object):
             seq = list(args[0]) if len(args) == 1 and isinstance(args[0], (list, tuple)) else list(args)
             if seq and all(isinstance(x, (int, float)) and not isinstance(x, bool) for x in seq):
                 return min(seq) if name == 'min' else max(seq)
+        if name == 'RegExp' and 1 <= len(args) <= 2 and all(isinstance(a_, str) for a_ in args):
+            return ('regex', args[0], args[1] if len(args) == 2 else '')       # a fresh regex object (its own lastIndex)
+        if name == 'sorted' and len(args) == 1 and isinstance(args[0], (list, tuple)) and not (getattr(self, '_kw', None) or {}) and args[0] and all(isinstance(x, (tuple, list)) for x in args[0]) and getattr(self.port, 'name', 'py') == 'py':
+            return self._sorted([tuple(x) if isinstance(x, tuple) else x for x in args[0]], {}, node)
         if name == 'sorted' and len(args) == 1 and isinstance(args[0], (list, tuple)) and (getattr(self, '_kw', None) or {}):
             kw = dict(self._kw)
             self._kw = {}
